@@ -87,6 +87,11 @@ CLAIMED = {
             "decides equality of the two terms for every cut; detectors with column-permuted table scorers, PELT on the "
             "reversed and on the length-shifted cost table, MovingWindow on shifted symbolic data (product runs)",
             "4.C12"),
+    "C11": ("product runs in one symbolic path: the same matrix of symbolic values handed to each detector (table scorers "
+            "recording what they are fitted on) and to the built-in scorers as DataFrame / ndarray / Series / other labels "
+            "and indexes through fit, predict, transform, transform_scores and update; outputs compared as detections and "
+            "as z3 terms; int64 vs float64 compared natively at solver-generated integer witnesses (testing part)",
+            "4.C11"),
 }
 PENDING = {}
 TITLES = {}
